@@ -59,6 +59,10 @@ func rikIntervalKeys(w *World) {
 				k := types.ExprString(s.Args[0])
 				okKey := false
 				switch v := ast.Unparen(s.Args[1]).(type) {
+				case *ast.CallExpr:
+					if _, e2, isCtor := entryCtorArgs(w, info, ent, v); isCtor {
+						okKey = types.ExprString(e2) == k
+					}
 				case *ast.Ident:
 					okKey = k == v.Name+".End"
 				case *ast.UnaryExpr:
@@ -159,25 +163,34 @@ func rik2NonEmptyPieces(w *World) {
 	}
 	n := 0
 	ast.Inspect(ins.Decl.Body, func(x ast.Node) bool {
-		cl, ok := x.(*ast.CompositeLit)
-		if !ok {
-			return true
-		}
-		t := info.TypeOf(cl)
-		nt, ok := t.(*types.Named)
-		if !ok || nt.Origin() != ent.Origin() {
-			return true
-		}
 		var S, E ast.Expr
-		for _, el := range cl.Elts {
-			if kv, ok := el.(*ast.KeyValueExpr); ok {
-				switch render(kv.Key) {
-				case "Start":
-					S = kv.Value
-				case "End":
-					E = kv.Value
+		var cl ast.Node
+		switch pc := x.(type) {
+		case *ast.CompositeLit:
+			t := info.TypeOf(pc)
+			nt, ok := t.(*types.Named)
+			if !ok || nt.Origin() != ent.Origin() {
+				return true
+			}
+			for _, el := range pc.Elts {
+				if kv, ok := el.(*ast.KeyValueExpr); ok {
+					switch render(kv.Key) {
+					case "Start":
+						S = kv.Value
+					case "End":
+						E = kv.Value
+					}
 				}
 			}
+			cl = pc
+		case *ast.CallExpr:
+			s2, e2, isCtor := entryCtorArgs(w, info, ent, pc)
+			if !isCtor {
+				return true
+			}
+			S, E, cl = s2, e2, pc
+		default:
+			return true
 		}
 		if S == nil || E == nil {
 			return true
@@ -387,4 +400,66 @@ func rik2NonEmptyPieces(w *World) {
 		return true
 	})
 	w.floor("Entry pieces created by Intersect.Insert", n, 5)
+}
+
+// entryCtorArgs: if call invokes a same-package function whose body is a single
+// `return &Entry{Start: <param>, End: <param>, …}`, it returns the argument expressions that become
+// Start and End (a constructor helper such as singleton(start, end, value)).
+func entryCtorArgs(w *World, info *types.Info, ent *types.Named, call *ast.CallExpr) (S, E ast.Expr, ok bool) {
+	f := callee(info, call)
+	if f == nil {
+		return nil, nil, false
+	}
+	d := w.decls[f.Origin()]
+	if d == nil || d.Body == nil || len(d.Body.List) != 1 {
+		return nil, nil, false
+	}
+	r, isRet := d.Body.List[0].(*ast.ReturnStmt)
+	if !isRet || len(r.Results) != 1 {
+		return nil, nil, false
+	}
+	ue, isU := ast.Unparen(r.Results[0]).(*ast.UnaryExpr)
+	if !isU {
+		return nil, nil, false
+	}
+	cl, isCL := ue.X.(*ast.CompositeLit)
+	if !isCL {
+		return nil, nil, false
+	}
+	dinfo := gInfos[f.Origin()]
+	if dinfo == nil {
+		return nil, nil, false
+	}
+	if nt, isN := dinfo.TypeOf(cl).(*types.Named); !isN || nt.Origin() != ent.Origin() {
+		return nil, nil, false
+	}
+	paramIdx := map[string]int{}
+	i := 0
+	for _, fl := range d.Type.Params.List {
+		for _, nm := range fl.Names {
+			paramIdx[nm.Name] = i
+			i++
+		}
+	}
+	for _, el := range cl.Elts {
+		kv, isKV := el.(*ast.KeyValueExpr)
+		if !isKV {
+			continue
+		}
+		id, isId := ast.Unparen(kv.Value).(*ast.Ident)
+		if !isId {
+			continue
+		}
+		pi, isP := paramIdx[id.Name]
+		if !isP || pi >= len(call.Args) {
+			continue
+		}
+		switch render(kv.Key) {
+		case "Start":
+			S = call.Args[pi]
+		case "End":
+			E = call.Args[pi]
+		}
+	}
+	return S, E, S != nil && E != nil
 }
